@@ -7,7 +7,9 @@ package storage
 // E2 (explicit histories, no state merging): every history over
 // {append a|b, flush, failed flush, parked flush begin/end, restart, warm-up reads} up to
 // a depth is replayed on fresh real PartitionLog objects (partition under test plus two
-// decoy partitions sharing bucket and cache); in the reached state *every* read
+// decoy partitions sharing bucket and cache) in two worlds (plain bucket; bucket that
+// already holds sibling logs with textually neighbouring keys, see
+// zz_verif_c03_siblings_test.go); in the reached state *every* read
 // (offset in -1..end+1 x byte-limit alphabet) is issued, twice when a cache is present,
 // and compared with the reference log.
 
@@ -29,9 +31,10 @@ import (
 )
 
 type c03Job struct {
-	Cfg  rpCfg  `json:"cfg"`
-	Hist string `json:"history"` // a b: append; F: flush; X/Y: flush whose segment/index upload fails; B: begin parked flush; E/Z: release it (ok/fail); S: restart; R: read every offset once
-	seq  int64
+	World string `json:"world"` // "plain" | "siblings" (see zz_verif_c03_siblings_test.go)
+	Cfg   rpCfg  `json:"cfg"`
+	Hist  string `json:"history"` // a b: append; F: flush; X/Y: flush whose segment/index upload fails; B: begin parked flush; E/Z: release it (ok/fail); S: restart; R: read every offset once
+	seq   int64
 }
 
 type c03Viol struct{ key, detail string }
@@ -149,6 +152,7 @@ type c03Out struct {
 	reads    int64
 	events   int64
 	restoreE bool
+	gaps     int64 // appends that were assigned a base offset beyond the reference's end
 }
 
 // c03Run replays one history in a fresh bubble and issues every read in the reached state.
@@ -159,9 +163,15 @@ func c03Run(t *testing.T, job *c03Job) (out c03Out) {
 				out.viol = &c03Viol{"panic", fmt.Sprintf("panic in storage code: %v\n%s", r, debug.Stack())}
 			}
 		}()
-		s := rpNewSys(job.Cfg, true)
+		s, sibs, serr := c03NewSys(job.Cfg, job.World)
+		if serr != nil {
+			out.harness = "building the world: " + serr.Error()
+			return
+		}
 		p := s.parts[0]
+		s.followAssigned = true
 		defer func() {
+			out.gaps = int64(s.offsetGaps)
 			if s.blocked {
 				_ = s.endParkedFlush(false)
 			}
@@ -184,6 +194,7 @@ func c03Run(t *testing.T, job *c03Job) (out c03Out) {
 						return false
 					}
 					r := rpClassify(s, p, o, data, err)
+					c03Refine(&r, p, sibs, data)
 					fmt.Fprintf(h, "%d,%d:%d+%d/%d e=%v;", o, mb, r.Start, r.Complete, r.Len, err != nil)
 					if r.Problem != "" {
 						key := r.Problem
@@ -224,7 +235,7 @@ func c03Run(t *testing.T, job *c03Job) (out c03Out) {
 				if err != nil {
 					// a partition that cannot be reopened is C06's subject, not C03's
 					out.restoreE = true
-					out.sig = job.Cfg.String() + "|restore-error"
+					out.sig = job.World + "|" + job.Cfg.String() + "|restore-error"
 					return
 				}
 			case 'R':
@@ -237,7 +248,9 @@ func c03Run(t *testing.T, job *c03Job) (out c03Out) {
 						err = rerr
 						break
 					}
-					if r := rpClassify(s, p, o, data, rerr); r.Problem != "" {
+					r := rpClassify(s, p, o, data, rerr)
+					c03Refine(&r, p, sibs, data)
+					if r.Problem != "" {
 						out.viol = &c03Viol{r.Problem, fmt.Sprintf("warm-up Read(offset=%d, maxBytes=1MiB) returned %d bytes: %s; log state %s", o, len(data), r.Detail, c03Layout(p))}
 						return
 					}
@@ -261,7 +274,7 @@ func c03Run(t *testing.T, job *c03Job) (out c03Out) {
 			}
 		}
 		out.nontriv = strings.ContainsAny(job.Hist, "FXYBS") && len(p.ref) >= 1
-		out.sig = fmt.Sprintf("%s|%s|%x|full=%d,range=%d", job.Cfg, layout, h.Sum64(), s.s3.FullGets, s.s3.RangeGets)
+		out.sig = fmt.Sprintf("%s|%s|%s|%x|full=%d,range=%d", job.World, job.Cfg, layout, h.Sum64(), s.s3.FullGets, s.s3.RangeGets)
 	})
 	return
 }
@@ -289,12 +302,14 @@ func c03Configs(thorough bool) []rpCfg {
 func TestVerifC03(t *testing.T) {
 	rep := vh.New(t, "C03")
 	defer rep.Finish()
-	rep.Rule = "state = one history over {a,b: append 1-/2-record batch; F: flush; X/Y: flush whose segment/index upload fails; B..E/Z: flush parked inside the S3 upload, released ok/failed; S: restart (fresh log+cache, RestoreFromS3); R: warm-up reads} replayed on fresh real PartitionLogs (partition under test + 2 decoy partitions, shared bucket and cache) under one configuration (cache off|large|small x index interval x read-ahead); in every reached state every Read(o in -1..end+1, maxBytes in {0,-1,1,60,61,62, batch-boundary distances +-1, 1MiB}) is executed (twice with a cache) and compared with the reference log; outcome signature = configuration + segment/flush-window/buffer layout + hash of all read results + S3 GET counts; non-trivial = the history contains a flush, failed/parked flush or restart"
+	rep.Rule = "state = one history over {a,b: append 1-/2-record batch; F: flush; X/Y: flush whose segment/index upload fails; B..E/Z: flush parked inside the S3 upload, released ok/failed; S: restart (fresh log+cache, RestoreFromS3); R: warm-up reads} replayed on fresh real PartitionLogs (partition under test + 2 decoy partitions, shared bucket and cache) in one world (plain: t/0 with decoys t/1,u/0 | siblings: t/1 with decoys t/2,u/1 in a bucket that already holds the flushed segments of the static sibling logs t/10, t/11, t1/0, tt/1 written by real PartitionLogs with other contents and sizes at coinciding segment base offsets) under one configuration (cache off|large|small x index interval x read-ahead); in every reached state every Read(o in -1..end+1, maxBytes in {0,-1,1,60,61,62, batch-boundary distances +-1, 1MiB}) is executed (twice with a cache) and compared with the reference log; outcome signature = world + configuration + segment/flush-window/buffer layout + hash of all read results + S3 GET counts; non-trivial = the history contains a flush, failed/parked flush or restart"
 	rep.Assumptions = []string{
 		"S3 stands behind storage.MemoryS3Client semantics (atomic PUT, range GET) wrapped to fail or park uploads",
 		"each history runs in a testing/synctest bubble; after every event and read the bubble is quiesced so read-ahead goroutines have finished (deterministic cache contents)",
 		"the reference contains every appended batch (an append whose triggered flush failed is still in the log); batches not in a committed segment leave the reference at a restart",
 		"handleFetch's watermark bound is not part of this check (PartitionLog.Read level)",
+		"sibling logs are static background: written and flushed once before the history starts, never appended to, restored or read afterwards",
+		"the reference takes the base offset the log assigned to an append; an assignment beyond the reference's end leaves a hole in the reference and is counted (append_offset_gaps_followed)",
 	}
 	thorough := vh.Thorough()
 	depth := 5
@@ -304,6 +319,12 @@ func TestVerifC03(t *testing.T) {
 	cfgs := c03Configs(thorough)
 	rep.SetInfo("depth", depth)
 	rep.SetInfo("configurations", len(cfgs))
+	rep.SetInfo("worlds", strings.Join(c03Worlds, " "))
+	if n, err := c03SiblingObjects(); err != nil {
+		t.Fatalf("HARNESS-ERROR sibling world: %v", err)
+	} else {
+		rep.SetInfo("sibling_segment_objects", n)
+	}
 	rep.SetInfo("ops", "a b F X Y(thorough) B E Z S R")
 
 	var rp c03Job
@@ -327,10 +348,11 @@ func TestVerifC03(t *testing.T) {
 	defer debug.SetGCPercent(debug.SetGCPercent(400))
 	// jobs ordered by history length, then configuration, then history
 	var jobs []*c03Job
-	for ci, cfg := range cfgs {
-		_ = ci
-		for _, h := range c03Histories(cfg, depth, thorough) {
-			jobs = append(jobs, &c03Job{Cfg: cfg, Hist: h})
+	for _, world := range c03Worlds {
+		for _, cfg := range cfgs {
+			for _, h := range c03Histories(cfg, depth, thorough) {
+				jobs = append(jobs, &c03Job{World: world, Cfg: cfg, Hist: h})
+			}
 		}
 	}
 	sort.SliceStable(jobs, func(i, j int) bool { return len(jobs[i].Hist) < len(jobs[j].Hist) })
@@ -361,19 +383,22 @@ func TestVerifC03(t *testing.T) {
 				rep.Count("states", 1)
 				rep.Count("transitions", o.events+o.reads)
 				rep.Count("reads", o.reads)
+				if o.gaps > 0 {
+					rep.Count("append_offset_gaps_followed", o.gaps)
+				}
 				if o.restoreE {
 					rep.Count("restore_errors_skipped", 1)
 				}
 				if o.harness != "" {
 					mu.Lock()
 					if harnessErr == "" {
-						harnessErr = fmt.Sprintf("%s in %s %q", o.harness, job.Cfg, job.Hist)
+						harnessErr = fmt.Sprintf("%s in world %s %s %q", o.harness, job.World, job.Cfg, job.Hist)
 					}
 					mu.Unlock()
 					continue
 				}
 				if o.viol != nil {
-					rep.Outcome(job.Cfg.String()+"|"+job.Hist+"|VIOL:"+o.viol.key, true)
+					rep.Outcome(job.World+"|"+job.Cfg.String()+"|"+job.Hist+"|VIOL:"+o.viol.key, true)
 					mu.Lock()
 					counts[o.viol.key]++
 					l := append(best[o.viol.key], found{job, o.viol})
@@ -387,7 +412,7 @@ func TestVerifC03(t *testing.T) {
 				}
 				rep.Outcome(o.sig, o.nontriv)
 				if o.nontriv && len(job.Hist) == depth && job.seq%997 == 0 {
-					rep.Sample(map[string]any{"cfg": job.Cfg.String(), "history": job.Hist, "reads": o.reads, "outcome": o.sig})
+					rep.Sample(map[string]any{"world": job.World, "cfg": job.Cfg.String(), "history": job.Hist, "reads": o.reads, "outcome": o.sig})
 				}
 			}
 		}()
@@ -418,7 +443,7 @@ func TestVerifC03(t *testing.T) {
 	for _, k := range keys {
 		rep.Count("violating_states_"+k, counts[k])
 		for _, f := range best[k] {
-			rep.Violation(k, fmt.Sprintf("%s history %q: %s", f.job.Cfg, f.job.Hist, f.v.detail), f.job)
+			rep.Violation(k, fmt.Sprintf("world %s %s history %q: %s", f.job.World, f.job.Cfg, f.job.Hist, f.v.detail), f.job)
 		}
 	}
 }
